@@ -330,4 +330,16 @@ def array_float_op_program(rng):
         else:
             calls.append({'op': 'aiopf', 't': 'a', 'sa': [opn], 'va': [val]})
             calls.append({'op': 'adata', 't': 'a'})
+    # Array op Array: a second Array of a float-valued or integer dtype, of the same or another length
+    for _ in range(rng.randint(1, 3)):
+        name2, n2 = rng.choice(FLOAT_DT + FLOAT_DT + INT_DT[:7])
+        k2 = k if rng.random() < 0.85 else k + 1
+        items2 = [item_value(rng, name2, n2) if (name2, n2) in FLOAT_DT else rand_value_for(rng, name2, n2) for _ in range(k2)]
+        calls.append({'op': 'anew', 'rid': 'b', 'sa': [name2, 'list'], 'ia': [n2, rng.randint(0, 2)], 'va': items2})
+        calls.append({'op': 'alen', 't': 'a'})
+        opn = rng.choice(['add', 'sub', 'mul', 'truediv', 'floordiv', 'mod'])
+        if rng.random() < 0.5:
+            calls.append({'op': 'aopaf', 't': 'a', 'rid': 'r', 'sa': [opn], 'xs': [_d.ref('b')]})
+        else:
+            calls.append({'op': 'aopaf', 't': 'b', 'rid': 'r', 'sa': [opn], 'xs': [_d.ref('a')]})
     return {'calls': calls}
